@@ -949,7 +949,31 @@ class Inliner:
 #   B  `if a: (if b: X)` with no else on either -> `if a and b: X`
 #   C  `if c: ...raise/return  else: rest` -> `if c: ...raise/return` followed by rest
 #   D  `tmp = E` immediately followed by the only use of tmp -> the use with E in place
+def call_stable_fields(sm) -> Set[str]:
+    """attribute names whose binding no operation can change behind the caller's back: every store of `.F` / `._F` in the program sits in an
+    `__init__` or in the property setter of F itself.  Reading such a field before or after a call gives the same object (the object may have been
+    mutated, the binding has not)."""
+    stores: Dict[str, Set[str]] = {}
+    for m in sm.modules.values():
+        if not (m.name.startswith('musicxml') or m.name == 'verysimpletree.tree'):
+            continue
+        for q, node, cls, parent in module_function_quals(m.tree):
+            setter_of = {d.value.id for d in node.decorator_list if isinstance(d, ast.Attribute) and d.attr == 'setter' and isinstance(d.value, ast.Name)}
+            for n in walk_local(node):
+                if isinstance(n, ast.Attribute) and isinstance(n.ctx, (ast.Store, ast.Del)):
+                    base = n.attr.lstrip('_')
+                    ok = node.name == '__init__' and isinstance(n.value, ast.Name) and n.value.id == 'self' or base in {s_.lstrip('_') for s_ in setter_of}
+                    stores.setdefault(base, set()).add('ok' if ok else f"{m.name}:{q}")
+        for n in ast.walk(m.tree):
+            # class-level tables rebound through the class (cls._X = ...) are found above; setattr(obj, name, ...) with a computed name can store anything
+            if isinstance(n, ast.Call) and isinstance(n.func, ast.Name) and n.func.id == 'setattr' and len(n.args) == 3 and isinstance(n.args[1], ast.Constant):
+                stores.setdefault(str(n.args[1].value).lstrip('_'), set()).add('setattr')
+    return {f for f, where in stores.items() if where == {'ok'}}
+
+
 class Canon:
+    stable_fields: Set[str] = set()
+
     def __init__(self):
         self.counts = {'A': 0, 'B': 0, 'C': 0, 'D': 0}
 
@@ -1023,6 +1047,13 @@ class Canon:
                 del sub.body[0]
                 self.counts['S'] = self.counts.get('S', 0) + 1
                 changed = True
+        # `del <local>` as the last statement of a function unbinds a name nobody can read any more
+        if len(fn.body) > 1 and isinstance(fn.body[-1], ast.Delete) and all(isinstance(t, ast.Name) for t in fn.body[-1].targets) and \
+                not any(isinstance(n, (ast.FunctionDef, ast.AsyncFunctionDef, ast.Lambda)) and n is not fn and
+                        any(isinstance(y, ast.Name) and y.id in {t.id for t in fn.body[-1].targets} for y in ast.walk(n)) for n in ast.walk(fn)):
+            del fn.body[-1]
+            self.counts['X'] = self.counts.get('X', 0) + 1
+            changed = True
         for _ in range(6):
             c = self._lists(fn)
             c |= self._split_literal_sequences(fn)
@@ -1150,16 +1181,16 @@ class Canon:
         if isinstance(e, ast.Name):
             return e.id not in multi_def
         if isinstance(e, ast.Attribute):
-            return e.attr not in stored_attrs and self._substitutable(e.value, stored_attrs, multi_def)
+            return self._substitutable(e.value, stored_attrs, multi_def)      # stores of the attribute are interfering statements for _value_stable
         if isinstance(e, ast.Call) and isinstance(e.func, ast.Name) and e.func.id in self.PURE_FUNCS and not e.keywords:
             return all(self._substitutable(a, stored_attrs, multi_def) for a in e.args)
         # zero-argument accessors (`x.get_xsd_tree()`, `t.get_simple_content_extension()`): reading them again gives the same object
         if isinstance(e, ast.Call) and isinstance(e.func, ast.Attribute) and e.func.attr.startswith('get_') and not e.args and not e.keywords \
-                and (e.func.attr not in ('get_children', 'get_leaves', 'get_attached_elements', 'get_required_element_names') or getattr(self, '_read_only_fn', False)):
+                and (e.func.attr not in ('get_required_element_names',) or getattr(self, '_read_only_fn', False)):
             return self._substitutable(e.func.value, stored_attrs, multi_def)
         # a fixed position of such a sequence, in a function that changes no structure
-        if isinstance(e, ast.Subscript) and isinstance(e.slice, ast.Constant) and isinstance(e.slice.value, int) and getattr(self, '_read_only_fn', False):
-            return self._substitutable(e.value, stored_attrs, multi_def)
+        if isinstance(e, ast.Subscript) and isinstance(e.slice, ast.Constant) and isinstance(e.slice.value, (int, str)):
+            return self._substitutable(e.value, stored_attrs, multi_def)         # what lies between definition and use is judged by _value_stable
         return False
 
     RAISING_PURE = {'eval', 'convert_to_xml_class_name', 'convert_to_xsd_class_name', 'cap_first', 'len', 'int', 'float'}
@@ -1248,15 +1279,20 @@ class Canon:
             return True
         roots = {n.id for n in ast.walk(value) if isinstance(n, ast.Name)} - self.PURE_FUNCS
         has_call = any(isinstance(n, ast.Call) and isinstance(n.func, ast.Attribute) for n in ast.walk(value))
+        has_item = any(isinstance(n, ast.Subscript) for n in ast.walk(value))
+        chain_fields = {n.attr for n in ast.walk(value) if isinstance(n, ast.Attribute)}
+        # a pure attribute chain over fields whose binding only constructors and their own setters change: no call can make it denote another object
+        calls_matter = has_call or has_item or not all(f_.lstrip('_') in self.stable_fields for f_ in chain_fields)
         if has_call:
             roots = roots | {x}
         nested = {n.name for n in ast.walk(fn) if isinstance(n, (ast.FunctionDef, ast.AsyncFunctionDef)) and n is not fn}
-        order, loops_of, stmt_of = [], {}, {}
+        order, loops_of, stmt_of, branch_of = [], {}, {}, {}
 
-        def number(stmts, loops):
+        def number(stmts, loops, branches=()):
             for s in stmts:
                 order.append(s)
                 loops_of[id(s)] = loops
+                branch_of[id(s)] = branches
                 inner = loops + [s] if isinstance(s, (ast.For, ast.While)) else loops
                 own = [s]
                 while own:
@@ -1273,10 +1309,15 @@ class Canon:
                 for field in ('body', 'orelse', 'finalbody'):
                     sub = getattr(s, field, None)
                     if isinstance(sub, list) and sub and isinstance(sub[0], ast.stmt):
-                        number(sub, inner)
+                        number(sub, inner, branches + ((id(s), field),) if isinstance(s, ast.If) else branches)
                 for h in getattr(s, 'handlers', []) or []:
-                    number(h.body, inner)
+                    number(h.body, inner, branches)
         number(fn.body, [])
+
+        def exclusive(a, b) -> bool:
+            """a and b sit in different branches of one `if`: within one pass over the enclosing statement list only one of them runs"""
+            fa = dict(branch_of[id(a)])
+            return any(k in fa and fa[k] != f_ for k, f_ in branch_of[id(b)])
         pos = {id(s): k for k, s in enumerate(order)}
         if id(def_stmt) not in pos:
             return False
@@ -1292,11 +1333,11 @@ class Canon:
                     if not isinstance(c, (ast.stmt, ast.ExceptHandler)):
                         own.append(c)
             for n in nodes:
-                if isinstance(n, ast.Call):
+                if isinstance(n, ast.Call) and calls_matter:
                     args = list(n.args) + [k.value for k in n.keywords]
                     arg_roots = {self._root_name(a.value if isinstance(a, ast.Starred) else a) for a in args}
                     if isinstance(n.func, ast.Attribute):
-                        if n.func.attr.startswith(self.READ_PREFIXES) or n.func.attr in self.READ_METHODS:
+                        if n.func.attr.lstrip('_').startswith(self.READ_PREFIXES) or n.func.attr in self.READ_METHODS:
                             continue
                         if self._root_name(n.func.value) in roots or arg_roots & roots:
                             return True
@@ -1310,14 +1351,17 @@ class Canon:
                             return True
                     elif arg_roots & roots:
                         return True
-                elif isinstance(n, (ast.Attribute, ast.Subscript)) and isinstance(n.ctx, (ast.Store, ast.Del)):
-                    if self._root_name(n) in roots:
+                elif isinstance(n, ast.Attribute) and isinstance(n.ctx, (ast.Store, ast.Del)):
+                    if n.attr in chain_fields or n.attr.lstrip('_') in {c_.lstrip('_') for c_ in chain_fields}:
+                        return True         # through whatever name: the object may be the one the chain passes through
+                elif isinstance(n, ast.Subscript) and isinstance(n.ctx, (ast.Store, ast.Del)):
+                    if (has_call or has_item) and self._root_name(n) in roots:
                         return True
             return False
         # a raise ends the function (unless fn has handlers of its own): what its operand does to the objects is not seen by any later use
         has_try = any(isinstance(n, ast.Try) for n in ast.walk(fn))
         bad = [s for s in order if pos[id(s)] > d and not isinstance(s, (ast.FunctionDef, ast.AsyncFunctionDef, ast.ClassDef)) and
-               not (isinstance(s, ast.Raise) and not has_try) and interferes(s)]
+               not (isinstance(s, (ast.Raise, ast.Return)) and not has_try) and interferes(s)]
         if not bad:
             return True
         def_loops = {id(l) for l in loops_of[id(def_stmt)]}
@@ -1331,12 +1375,24 @@ class Canon:
                 u = pos[id(us)]
                 use_loops = {id(l) for l in loops_of[id(us)]} | ({id(us)} if isinstance(us, (ast.For, ast.While)) else set())
                 for b in bad:
-                    if d < pos[id(b)] < u:
+                    if d < pos[id(b)] < u and not exclusive(b, us):
                         return False
                     shared = (use_loops & ({id(l) for l in loops_of[id(b)]} | ({id(b)} if isinstance(b, (ast.For, ast.While)) else set()))) - def_loops
                     if shared:
                         return False
         return True
+
+    @staticmethod
+    def _builtin_bound_method(fn, value, defs) -> bool:
+        """`o.m` where o is a local bound once to a dict / list / set display (or comprehension) and m is a method of that type: fetching it
+        cannot raise and what it denotes does not depend on what is stored in the container meanwhile"""
+        if not (isinstance(value, ast.Attribute) and isinstance(value.value, ast.Name) and defs.get(value.value.id, 0) == 1):
+            return False
+        for n in ast.walk(fn):
+            if isinstance(n, ast.Assign) and len(n.targets) == 1 and isinstance(n.targets[0], ast.Name) and n.targets[0].id == value.value.id:
+                ty = {ast.Dict: dict, ast.DictComp: dict, ast.List: list, ast.ListComp: list, ast.Set: set, ast.SetComp: set}.get(type(n.value))
+                return ty is not None and callable(getattr(ty, value.attr, None))
+        return False
 
     def _exception_point_kept(self, lst, i, x, value) -> bool:
         """moving the evaluation of `value` from lst[i] to the uses of x keeps what is raised and when: value cannot raise, or the first use follows
@@ -1387,8 +1443,9 @@ class Canon:
                                 return node
                         # uses before the definition (loops) would change meaning: require the definition to precede every use textually
                         first_use = min((n.lineno for n in ast.walk(fn) if isinstance(n, ast.Name) and n.id == x and isinstance(n.ctx, ast.Load) and hasattr(n, 'lineno')), default=None)
-                        if first_use is not None and first_use >= getattr(st, 'lineno', 0) and self._exception_point_kept(lst, i, x, value) \
-                                and self._value_stable(fn, st, x, value):
+                        if first_use is not None and first_use >= getattr(st, 'lineno', 0) and \
+                                (self._builtin_bound_method(fn, value, defs) or
+                                 self._exception_point_kept(lst, i, x, value) and self._value_stable(fn, st, x, value)):
                             del lst[i]
                             if not lst:
                                 lst.append(ast.copy_location(ast.Pass(), st))
@@ -1747,6 +1804,7 @@ def propagate_new_module_constants(sm, inv) -> Tuple[int, Set[str]]:
 
 def canonicalise(sm) -> dict:
     canon = Canon()
+    canon.stable_fields = call_stable_fields(sm)
     changed = set()
     kw = _KwToPos(_signatures(sm))
     for m in sm.modules.values():
